@@ -156,6 +156,9 @@ func C08(p *core.Program, r *core.Report) {
 	// E11: what the table classifier and the caption code read as the text of an element is what
 	// the documented collector gathers (shared with C04-V5)
 	checkInnerTextCollector(p, r, "E11")
+	// ---- E12: what the document renders is what the caller gets: nothing is taken out of
+	// Result.Node after the HTML rendering was parsed (C09-W3 shared)
+	checkNodeUntouchedAfterParse(p, r, "E12")
 
 	// E9: a wrapper (div, section, header, heading) is dropped as empty - and the media inside it
 	// with it - only if it has no text and each of its CHILDREN is a line break or a rule. The
